@@ -5,7 +5,7 @@ import os, sys, random, itertools, math, re, tempfile, shutil, types, datetime a
 RULES = {
     'C18.B.remove_stns': 'generated files: 1..7 stations (quick) / 1..12 (thorough), solution numbers 1..3, with/without velocities, L and U matrices, random SPD covariances, EVERY subset of stations as removal set for <= 6 stations (sampled above), wall clock substituted at 00:00:00, 00:16:39, 02:46:39, 02:46:40, 12:00:00, 23:59:59 and year boundaries: output well formed (fixed-width header, every block closed on its own line, %ENDSNX last), estimates = remaining ones in order and renumbered, covariance = original minus removed rows/columns, header parameter count',
     'C18.B.remove_velocity': 'files with velocities: output keeps exactly the position estimates (renumbered) and their covariance sub-matrix, header count halved and fixed width, velocity flag removed, well formed',
-    'C18.B.remove_matrixzeros': 'files whose covariance has all-zero matrix lines: those lines are dropped, every other line is unchanged and on its own line',
+    'C18.B.remove_matrixzeros': 'files whose covariance has all-zero matrix lines (uncorrelated stations) or element-wise random zeros (lines with every mix of zero and non-zero elements): those lines are dropped, every other line is unchanged and on its own line',
     'C18.B.readers': 'read_sinex_estimate, read_sinex_matrix, read_sinex_sites return exactly the values written',
 }
 CLOCKS = [(2020, 1, 1, 0, 0, 0), (2021, 3, 7, 0, 16, 39), (2022, 12, 31, 2, 46, 39), (2023, 6, 15, 2, 46, 40), (2024, 2, 29, 12, 0, 0), (2019, 12, 31, 23, 59, 59), (2000, 1, 1, 0, 0, 1)]
@@ -39,11 +39,17 @@ def gen_solution(rng, nst, vel, tri):
     npar = nst * (6 if vel else 3)
     G = [[rng.gauss(0, 1) for _ in range(npar)] for _ in range(npar)]
     M = [[sum(G[i][k] * G[j][k] for k in range(npar)) * 1e-6 for j in range(npar)] for i in range(npar)]
-    if rng.random() < 0.5 and nst > 1:          # uncorrelated stations: all-zero matrix lines exist
+    mode = rng.random()
+    if mode < 0.35 and nst > 1:          # uncorrelated stations: all-zero matrix lines exist
         for i in range(npar):
             for j in range(npar):
                 if i // (6 if vel else 3) != j // (6 if vel else 3):
                     M[i][j] = 0.0
+    elif mode < 0.7:                     # element-wise sparsity: matrix lines with every mix of zero and non-zero elements (0 0 x, 0 x 0, x 0 0, ...)
+        for i in range(npar):
+            for j in range(i):
+                if rng.random() < 0.6:
+                    M[i][j] = M[j][i] = 0.0
     M = [[float('%.14e' % M[max(i, j)][min(i, j)]) for j in range(npar)] for i in range(npar)]
     return dict(stations=st, vel=vel, tri=tri, M=M, npar=npar, agency=rng.choice(['AUS', 'VER', 'IGS', 'GAV']))
 
